@@ -98,6 +98,12 @@ def r04_3(ctx, S, prog, crate):
     st = starts[0]
     ctx.check(st.bb not in S.loop["body"] and S.loop["header"] in b.reach([st.bb]), "R04.3", [b.path, "initial-start-before-loop"],
               "the initial timestamp is not read before the loop", st.line())
+    # the clock starts right before sampling: nothing is called between reading the initial timestamp and the loop
+    between = b.between([st.bb], [S.loop["header"]]) - {S.loop["header"]}
+    calls = [b.call_at(x) for x in sorted(between) if b.call_at(x) is not None]
+    ctx.check(not calls, "R04.3", [b.path, "clock-starts-right-before-sampling"] + [c.callee for c in calls],
+              "between the initial timestamp and the first round `%s` is called: its time is charged to this benchmark's min_time/max_time budget "
+              "although it is not benchmarking time" % ", ".join(c.callee for c in calls), calls[0].line() if calls else st.line())
     # guarded by !skip_ext_time
     guard = None
     for bi, t in b.switches():
